@@ -1197,7 +1197,15 @@ func structuralDigest(b *strings.Builder, v reflect.Value, depth int) {
 	if depth > 8 || !v.IsValid() {
 		return
 	}
-	if v.CanInterface() {
+	// a request object is rendered by its id; a record type of the store's own package that merely embeds a request (and may
+	// carry flags next to it) is walked field by field
+	ownRecord := func(t reflect.Type) bool {
+		for t.Kind() == reflect.Ptr {
+			t = t.Elem()
+		}
+		return strings.HasSuffix(t.PkgPath(), "/storage")
+	}
+	if v.CanInterface() && !ownRecord(v.Type()) && !(v.Kind() == reflect.Interface && !v.IsNil() && ownRecord(v.Elem().Type())) {
 		switch x := v.Interface().(type) {
 		case fosite.Requester:
 			if x == nil || (reflect.ValueOf(x).Kind() == reflect.Ptr && reflect.ValueOf(x).IsNil()) {
